@@ -85,7 +85,10 @@ def piece_sdl(p):
             s += "(" + ", ".join(arg_sdl(a) for a in p["args"]) + ")"
         return s + " on " + " | ".join(p["locs"])
     if k == "SCHEMA":
-        return "%sschema {\n  %s\n}" % (ext, "\n  ".join("%s: %s" % (o, t) for o, t in p["roots"]))
+        head = "%sschema" % ext + "".join(" @%s" % d for d in (p.get("tdirs") or []))
+        if not p["roots"]:
+            return head
+        return head + " {\n  %s\n}" % "\n  ".join("%s: %s" % (o, t) for o, t in p["roots"])
     raise ValueError(p)
 
 
@@ -119,7 +122,7 @@ def register_impls(pieces, sn):
             t.Directive(p["name"], schema_name=sn)(D)
 
 
-ROUTES = ["string", "file", "files", "directory"]
+ROUTES = ["string", "file", "files", "directory", "files-no-newline"]
 
 
 def supply(pieces, route, workdir):
@@ -132,6 +135,16 @@ def supply(pieces, route, workdir):
         with open(path, "w") as f:
             f.write("\n\n".join(texts) + "\n")
         return path
+    if route == "files-no-newline":
+        # files whose last line has no newline; one ends in a comment, one in a name token
+        paths = []
+        for k in range(3):
+            part = texts[k::3]
+            path = os.path.join(workdir, "nn%d.graphql" % k)
+            with open(path, "w") as f:
+                f.write("\n\n".join(part) + ("\n# end of part %d" % k if k == 0 else ""))
+            paths.append(path)
+        return paths
     if route == "files":
         paths = []
         for k in range(3):
